@@ -99,7 +99,7 @@ def ex_hist(draw):
         elif k == 9:
             steps.append(("mod", draw(addr) + "d|" + draw(addr) + "s/$/" + _tok(i) + "/\n"))
         elif k == 10:
-            steps.append(("mod", draw(addr) + "r aux\n"))
+            steps.append(("mod", draw(addr) + "r " + draw(st.sampled_from(["aux", "auxn", "aux1", "!printf x", "!head -c 3 aux"])) + "\n"))
         elif k == 11:
             # (writes of the whole buffer or of a range to the own file do not change the text and must not disturb undo grouping)
             steps.append(("nomod", draw(st.sampled_from([a + "p", a + "=", a + "k a", a, "w!", "1,1w!", "w! other", "1w!"])) + "\n"))
@@ -244,6 +244,8 @@ def _run_ex(env, c):
     t0 = gen.to_bytes(c["lines"])
     runner.write_file(d, "f", t0)
     runner.write_file(d, "aux", b"aux1\naux2\n")
+    runner.write_file(d, "auxn", b"n1\nn2\nn3")          # last line unterminated
+    runner.write_file(d, "aux1", b"single")
     script = ["se wa\n"]
     for i, (k, cmd) in enumerate(c["steps"]):
         script.append(cmd)
